@@ -70,7 +70,7 @@ CONFIG_SPACE = {
 
 
 def gen_config(rng, maxp):
-    nprocs = rng.choice([1, 2, 3, 4] if maxp <= 4 else [1, 2, 3, 4, 5, 8])
+    nprocs = rng.choice([1, 2, 3, 4, 5] if maxp <= 4 else [1, 2, 3, 4, 5, 7, 8])      # 5, 7: process counts no group size divides
     hints = {}
     for k, vals in CONFIG_SPACE.items():
         if rng.random() < 0.3:
